@@ -36,6 +36,10 @@ HOSTILE_VALUES = [
     'utf_16_le', 'utf-16-be', 'big5', 'shift_jis', 'iso2022_jp', 'hz',
     'cp65001', 'string_escape', '7', '100', '4', '\xe9', '\xff',
     '9' * 4300, '9' * 4301, '1' + '0' * 5000, '-' + '9' * 4400,
+    # almost-numbers and almost-names: what a backtracking pattern chokes on
+    '1.' + '0' * 40 + '-rc1', '0' * 60 + 'x', '1.' * 30 + 'x',
+    'a' * 40 + '/', '-' * 50 + 'x', '1' + '_0' * 30 + 'x', '1.0' * 25 + '_',
+    'a-' * 30 + '.', '/' * 64,
 ]
 HOSTILE_KEYS = [
     'length', 'indent', 'encoding', 'line_endings', 'format', 'type',
@@ -60,6 +64,11 @@ HOSTILE_CONTENT = BOMS + [b + b'\n' for b in BOMS] + \
     b'[' * 5000 + b']' * 5000 + b'\n',
     b'{"a":' * 3000 + b'1' + b'}' * 3000 + b'\n',
     b'[' * 200000 + b'\n',
+    # one object repeating a key, with values of different types
+    b'{"a": {}, "a": {}}\n', b'{"a": 1, "a": "x"}\n',
+    b'{"a": null, "a": 1, "b": [], "b": {}}\n',
+    b'{"k": [{"a": 1, "a": [1]}], "k": 2}\n',
+    b'{"a": 1e400, "b": -0.0, "c": 123456789012345678901234567890}\n',
 ]
 
 
@@ -527,9 +536,21 @@ def _short(v):
     return s if len(s) < 300 else s[:300] + '...'
 
 
+WATCHDOG_S = 60
+
+
 def run_case(case, st):
     data = case['data']
-    label, nrecs = judge(data, st, case)
+
+    try:
+        with sut.watchdog(WATCHDOG_S):
+            label, nrecs = judge(data, st, case)
+    except sut.WatchdogTimeout:
+        # inputs are at most a few hundred KB and take milliseconds
+        st.violation('no-termination-within-%ds' % WATCHDOG_S,
+                     '%d bytes still being processed' % len(data), case)
+        label, nrecs = 'no-termination', 0
+
     reached_content = nrecs >= 1
     st.case(case, nontrivial=reached_content,
             classes=[label, 'records-%s' % (nrecs if nrecs < 5 else '5+')])
